@@ -385,6 +385,9 @@ pub enum Forgery {
     /// is 0 and an unsigned top-level ROOT carries the leaf hash of the client's own request
     /// (what a verifier that looks for ROOT outside the signed SREP would compare with)
     LooseRoot,
+    /// a proof for a different request whose PATH is cut or padded to a length that is no whole
+    /// number of nodes (what a verifier that gives up on a malformed path might let through)
+    RaggedPath(u32),
     /// an unsigned top-level copy of a tag that counts only inside the signed parts, with a
     /// different value (decoration: by itself it leaves a response as authentic as it was)
     ShadowTag { tag: String, seed: u64 },
